@@ -96,7 +96,8 @@ class Ctx:
                 "samples": self.samples,
                 "coverage": {"matrix": self.matrix, "monitor_evaluations": counts,
                              "dict_entries_covered": len(self.dict_cov),
-                             "out_of_domain_probes": self.ood}}
+                             "out_of_domain_probes": self.ood,
+                             "provoked_failures_between_cases": dict(__import__("vf.errinject", fromlist=["x"]).COUNTS)}}
 
 
 def _kind_key(kind, stage, value=None, payload=None):
@@ -445,9 +446,12 @@ def check_group(cx, code, vendor, kids, m, p, via_new, default_m=False):
 
 
 def run_random(cx: Ctx, spec, rng):
+    from vf import errinject
     L = cx.L
     n = spec["n"]
+    erng = random.Random(h64("C01-err", spec.get("seed"), spec.get("name")))
     for i in range(n):
+        errinject.maybe(erng, 6)       # a failing operation elsewhere must not change what follows
         code, vendor, kind = rng.choice(cx.scalar_entries)
         if kind == "raw":
             continue
@@ -472,7 +476,10 @@ def run_random(cx: Ctx, spec, rng):
 
 
 def run_nested(cx: Ctx, spec, rng):
+    from vf import errinject
+    erng = random.Random(h64("C01-err", spec.get("seed"), spec.get("name")))
     for i in range(spec["n"]):
+        errinject.maybe(erng, 4)
         code, vendor = rng.choice(cx.grouped_codes)
         maxdepth = rng.choice([2, 3, 4, 5, 6, 6])
         kids = build_children(cx, rng, 1, maxdepth)
